@@ -56,6 +56,13 @@ impl Plan {
         Plan { chunk: Chunk::Full, intr_every: 0, fail_at: None, kind: Kind::Err, sticky: false, script: vec![] }
     }
     fn json(&self) -> Value {
+        let mut j = self.json0();
+        if !self.script.is_empty() {
+            j["script"] = json!(self.script);
+        }
+        j
+    }
+    fn json0(&self) -> Value {
         json!({
             "chunk": match self.chunk { Chunk::Full => 0, Chunk::Fixed(c) => c as i64, Chunk::Random(m) => -(m as i64) },
             "intr": self.intr_every,
@@ -281,6 +288,12 @@ impl Saver {
             Saver::Incr(d) => d.save_to(w),
         }
     }
+    fn base_len(&self) -> usize {
+        match self {
+            Saver::Plain(_) => 0,
+            Saver::Incr(d) => d.get_prev_documents_bytes().len(),
+        }
+    }
     fn save_path(&mut self, path: &str) -> io::Result<()> {
         match self {
             Saver::Plain(d) => d.save(path).map(|_| ()),
@@ -427,12 +440,25 @@ fn reference(cfg: usize, saver: &Saver, meta: &Value) -> Result<(Reference, Valu
     rec["xbad"] = json!(xbad);
     rec["sx"] = json!(sx);
     rec["nobj"] = json!(doc.objects.len());
+    // region boundaries of the complete output (used only to name the class of a failing case):
+    // [end of previous revisions, first object of this revision, cross-reference section, startxref tail]
+    let base = saver.base_len();
+    let body = doc
+        .reference_table
+        .entries
+        .values()
+        .filter_map(|e| if let XrefEntry::Normal { offset, .. } = e { Some(*offset as usize) } else { None })
+        .filter(|o| *o >= base)
+        .min()
+        .unwrap_or(base);
+    let tail = bytes.windows(10).rposition(|w| w == b"\nstartxref").unwrap_or(bytes.len());
+    rec["marks"] = json!([base, body, doc.xref_start, tail]);
     rec["zcalls"] = json!(sink.zero_calls);
     Ok((Reference { cfg, bytes, w, content: content(&doc), memo: Default::default() }, rec))
 }
 
 /// One save of a fresh clone through a sink following `plan`; if it fails, the later save.
-fn run(saver: &Saver, plan: Plan, rf: &Reference, seed: u64, full_log: bool) -> Value {
+fn run(saver: &Saver, plan: Plan, rf: &Reference, seed: u64, full_log: bool, phase: &str) -> Value {
     let mut s = saver.clone();
     let budget = 64 * rf.bytes.len() + 4096;
     let mut sink = Sink::new(plan.clone(), seed, budget);
@@ -479,7 +505,7 @@ fn run(saver: &Saver, plan: Plan, rf: &Reference, seed: u64, full_log: bool) -> 
         }
     }
     let mut rec = json!({
-        "ev": "run", "cfg": rf.cfg, "plan": plan.json(), "skip": skip, "tail": tail, "ncalls": sink.log.len(),
+        "ev": "run", "cfg": rf.cfg, "phase": phase, "plan": plan.json(), "skip": skip, "tail": tail, "ncalls": sink.log.len(),
         "result": result, "dlen": sink.out.len(), "dpre": dpre, "later": later,
         "zcalls": sink.zero_calls, "flushes": sink.flushes,
     });
@@ -550,7 +576,7 @@ fn record(args: &[String]) {
             for k in 0..n {
                 for kind in [Kind::Err, Kind::Ok0] {
                     let plan = Plan { chunk: Chunk::Full, intr_every: 0, fail_at: Some(k), kind, sticky: false, script: vec![] };
-                    out.put(&run(&saver, plan, &rf, next_seed(), false));
+                    out.put(&run(&saver, plan, &rf, next_seed(), false, "offset"));
                 }
             }
             // chunkings, alone and with Interrupted before every n-th call
@@ -562,7 +588,7 @@ fn record(args: &[String]) {
                     }
                     let plan = Plan { chunk: *chunk, intr_every: intr, fail_at: None, kind: Kind::Err, sticky: false, script: vec![] };
                     // one run per configuration ships its complete call log
-                    out.put(&run(&saver, plan, &rf, next_seed(), ci == 3 && intr == 0));
+                    out.put(&run(&saver, plan, &rf, next_seed(), ci == 3 && intr == 0, "chunk"));
                 }
             }
             // random combinations of failure position, kind, chunking, Interrupted, stickiness
@@ -575,7 +601,7 @@ fn record(args: &[String]) {
                     sticky: rng.chance(1, 2),
                     script: vec![],
                 };
-                out.put(&run(&saver, plan, &rf, next_seed(), false));
+                out.put(&run(&saver, plan, &rf, next_seed(), false, "combo"));
             }
             // the path-based save: a full device makes BufWriter's final flush fail
             if devfull {
@@ -617,24 +643,17 @@ fn replay(args: &[String]) {
         eprintln!("c19 replay: no document with four usable configurations");
         std::process::exit(3);
     }
-    for (_, _, rec) in &cfgs {
-        let mut r = rec.clone();
-        r["W"] = json!(r["W"].as_array().unwrap().len());
-        out.put(&r);
-    }
-    for (ci, c) in cases.iter().enumerate() {
-        let script: Vec<i64> = c["sched"].as_array().unwrap().iter().map(|x| x.as_i64().unwrap()).collect();
-        for (s, rf, _) in &cfgs {
-            let plan = Plan { script: script.clone(), ..Plan::healthy() };
-            let mut r = run(s, plan, rf, 0, true);
-            // only the scripted part of the log (and one more call) is of interest
-            let keep = script.len() + 1;
-            let tail = r["tail"].as_array().unwrap();
-            let consumed = tail.len().min(script.len());
-            r["tail"] = Value::Array(tail.iter().take(keep).cloned().collect());
-            r["consumed"] = json!(consumed);
+    // records in the format of `record`: each configuration's reference followed by its runs, so that
+    // Trace_SaveSink judges them; "i" is the index of the schedule
+    for (s, rf, rec) in &cfgs {
+        out.put(rec);
+        for (ci, c) in cases.iter().enumerate() {
+            let script: Vec<i64> = c["sched"].as_array().unwrap().iter().map(|x| x.as_i64().unwrap()).collect();
+            let n = script.len();
+            let plan = Plan { script, ..Plan::healthy() };
+            let mut r = run(s, plan, rf, 0, false, "replay");
+            r["consumed"] = json!(r["ncalls"].as_u64().unwrap().min(n as u64));
             r["i"] = json!(ci);
-            r["ev"] = json!("replay");
             out.put(&r);
         }
     }
